@@ -173,13 +173,14 @@ class Check:
         self.models.append({"model": label, "distinct_states": r.get("distinct", 0), "states_generated": r.get("generated", 0),
                             "wall_s": round(r.get("wall_s", 0), 1), "actions_covered": {k: v for k, v in sorted(r.get("coverage", {}).items())[:40]}})
 
-    def model_must_hold(self, r, label):
+    def model_must_hold(self, r, label, disabled=()):
         """A design-level model-checking run that must pass; a failure is a tool/model error (exit 2), not a code violation."""
         self.add_tlc(r, label)
         if not r["ok"]:
             raise ToolError("model %s does not satisfy its properties (model/spec problem, not a code verdict):\n%s" % (label, r["out"][-3000:]))
         # vacuity: an action of the model that was never taken means part of the specification was not exercised
-        dead = [a for a, n in r.get("coverage", {}).items() if n == 0 and a != "Init"]
+        # (`disabled`: actions this configuration switches off by a constant, covered by a sibling configuration)
+        dead = [a for a, n in r.get("coverage", {}).items() if n == 0 and a != "Init" and a not in disabled]
         if dead:
             raise ToolError("model %s: actions never taken in this configuration (vacuous exploration): %s" % (label, dead))
 
